@@ -4,6 +4,7 @@ import (
 	"fmt"
 	"math/rand"
 	"os"
+	"regexp"
 	"sort"
 	"strconv"
 	"strings"
@@ -346,3 +347,31 @@ func startServer(r *ev.Run, label string, mod func(o *srv.Options)) (*srv.Server
 }
 
 func osRemoveAll(dir string) error { return os.RemoveAll(dir) }
+
+var gluonFrameRe = regexp.MustCompile(`(?m)^(github\.com/ProtonMail/gluon[^\s(]*)`)
+
+// finishServer destroys an in-process server and reports panics recovered from its goroutines
+// (with gluon's default panic handler each of them would have killed the process).
+func finishServer(r *ev.Run, s *srv.Server, label string, log func() []string) {
+	panics := s.Panics()
+	s.Destroy()
+
+	for _, p := range panics {
+		fn := "?"
+
+		for _, m := range gluonFrameRe.FindAllStringSubmatch(p, -1) {
+			if !strings.Contains(m[1], "/async.") && !strings.Contains(m[1], "/srv.") {
+				fn = m[1]
+				break
+			}
+		}
+
+		var l []string
+		if log != nil {
+			l = log()
+		}
+
+		r.Violate(fmt.Sprintf("%s server-panic %s %s", r.ID, fn, firstLine(p)), "a server goroutine panicked (with the default panic handler the whole server process dies): "+firstLine(p), label,
+			map[string]any{"stack": firstLines(p, 40), "log": l})
+	}
+}
